@@ -63,8 +63,29 @@ def suite(wt):
     return passed, failed
 
 
+FLAGS = {
+    "default": ("root", [], {}, False),
+    "no-default-features": ("root", ["--no-default-features"], {}, False),
+    "fma": ("root", [], FMA, True),
+    "release": ("root", ["--release"], {}, False),
+    "verif-hooks": ("root", ["--features", "verif-hooks"], {}, False),
+    "release+verif-hooks": ("root", ["--release", "--features", "verif-hooks"], {}, False),
+    "miri": ("miri", [], {}, False),
+    "math-crate": ("math", [], {}, False),
+    "math-crate+no-default-features": ("math-manifest", ["--no-default-features"], {}, False),
+    "math-crate+fma": ("math", [], FMA, True),
+}
+
+
 def demo_cmd(key, wt, mdir):
-    loc, args, env, sep = SPECIAL.get(key, ("root", [], {}, False))
+    spec = SPECIAL.get(key)
+    if spec is None:
+        try:
+            flags = json.load(open(os.path.join(mdir, "meta.json"))).get("demo_flags", "default")
+        except Exception:
+            flags = "default"
+        spec = FLAGS.get(flags, FLAGS["default"])
+    loc, args, env, sep = spec
     env = dict(env)
     if sep:
         env["CARGO_TARGET_DIR"] = os.path.join(wt, "target-alt")
